@@ -22,7 +22,7 @@ CLAIMED = {
    technique="deterministic simulation: seeded instruction-level interleaving + lock-step reference model",
    ref="§5 C04"),
  "C12": dict(
-   text="Seeded exploration of schedules: raw NetQASM subroutines with up to three outstanding entanglement requests (create/receive, keep/measure, 1-2 sockets, 1-2 remote nodes, 1-2 applications) -- and, in a quarter of the runs, SDK-emitted requests on two real nodes -- run on the real controller(s) while the seeded scheduler orders instruction steps, link-layer deliveries (early ones included) and retry timers; a reference matcher over the recorded issue/delivery history decides slice placement, qubit mapping, exactly-once consumption and queue retirement; step monitors decide wait instructions and non-overwriting of allocated qubits; bounded liveness after the last delivery.",
+   text="Seeded exploration of schedules: raw NetQASM subroutines with up to three outstanding entanglement requests (create/receive, keep/measure, 1-2 sockets, 1-2 remote nodes, 1-2 applications) -- and, in a quarter of the runs, SDK-emitted requests on two real nodes -- run on the real controller(s) while the seeded scheduler orders instruction steps, link-layer deliveries (early ones included) and retry timers; a reference matcher over the recorded issue/delivery history decides slice placement, qubit mapping, exactly-once consumption and queue retirement; step monitors decide wait instructions and non-overwriting of allocated qubits; bounded liveness after the last delivery. Injected faults: responses before their request, cross-key reordering, deferred (busy) virtual qubits, a create request refused by the network stack (the subroutine aborts, nothing of it may stay behind), purpose ids that differ from socket ids, requests awaited only in the application's next subroutine.",
    note="Trusted: fake link layer (per-key FIFO, cross-key races), retry timer replacing the base class's unbounded recursion, the reference matcher. Requests sharing a key share a type; no message loss between link and controller.",
    technique="deterministic simulation: seeded interleaving of instruction steps, link deliveries and retry timers + history matcher",
    ref="§5 C12"),
@@ -33,7 +33,7 @@ CLAIMED = {
    ref="§5 C13"),
  "C05": dict(
    text="Seeded exploration: generated host programs (if x6 conditions x context/callback, loop, loop_body, foreach, enumerate, loop_until, add +-modulus, arrays with initial values, measurement into futures / array slots / registers; nesting <=3; <=12 top-level statements) run through the real SDK -> assembler -> codec -> controller pipeline with a scheduler-owned measurement-outcome script and flush placement, and through an independent direct evaluator of the same AST; at every flush the controller's gate trace, arrays, registers and every host-visible Future/RegFuture/Array are compared.",
-   note="Trusted: direct evaluator + generator sim/models/host_ref.py (programs read only definitely-defined values; body-local qubits consumed in the body; register futures used as operands only inside their flush segment), trace memory, SimConnection. Vanilla flavour, generic hardware, Z-basis measurement.",
+   note="Trusted: direct evaluator + generator sim/models/host_ref.py (loop_until clean-up routines, count-down and caller-named-register loops, future-indexed elements, a lazy host that reads some register futures only after a later flush; programs read only definitely-defined values; body-local qubits consumed in the body; register futures used as operands only inside their flush segment), trace memory, SimConnection. Vanilla flavour, generic hardware, Z-basis measurement.",
    technique="deterministic simulation: scheduler-owned outcomes and flush placement + differential against a direct evaluator",
    ref="§5 C05"),
  "C14": dict(
@@ -42,37 +42,37 @@ CLAIMED = {
    technique="deterministic simulation: seeded long operation histories with drawn flush period + register-pool monitor with confirm-by-repetition",
    ref="§5 C14"),
  "C09": dict(
-   text="Seeded exploration: qubit-lifecycle op sequences (new, gates, in-place/destructive measure, free, reset, create/recv keep plain | sequential+post routine | context, flushes) for budgets 1..5 on generic and NV hardware configs with and without the NV transpiler, run through the real SDK and controller with a one-sided fake link; no allocation fault may occur on the controller and after every completed flush the connection's active qubits must be exactly the controller's allocated virtual qubits.",
-   note="Trusted: live-qubit accounting of the generator (documented rules), one-sided link stub, trace memory. min_fidelity_all_at_end variants are not generated. Four recorded findings are masked in half of the runs (known_findings.json).",
+   text="Seeded exploration: qubit-lifecycle op sequences (new, gates, in-place/destructive measure, free, reset, into array or register, create/recv keep plain | sequential+post routine | context | with a minimum-fidelity constraint whose re-try loop is driven by the link reporting slow generation, flushes) for budgets 1..5 on generic and NV hardware configs with and without the NV transpiler, run through the real SDK and controller with a one-sided fake link; no allocation fault may occur on the controller and after every completed flush the connection's active qubits must be exactly the controller's allocated virtual qubits.",
+   note="Trusted: live-qubit accounting of the generator (documented rules), one-sided link stub, trace memory. Five recorded findings are masked in half of the runs (known_findings.json).",
    technique="deterministic simulation: scheduler-owned flush placement, link answer times/ids + agreement oracle after every flush",
    ref="§5 C09"),
  "C06": dict(
-   text="Seeded twin simulation: the same generated host program (1-6 segments of straight-line and looped quantum code with template rotation numerators) is run as system A (compile -> instantiate(values) -> commit_subroutine for the drawn segments, ordinary flushes for the others) and as system B (concrete values, ordinary flushes only) under one choice record; after every segment the controller gate traces, arrays, shared memory, every host-visible handle and the connection bookkeeping (arrays / registers pending return, used M registers) must be equal.",
+   text="Seeded twin simulation: the same generated host program (1-6 segments of straight-line and looped quantum code with template rotation numerators) is run as system A (compile -> instantiate(values) -> commit_subroutine for the drawn segments, ordinary flushes for the others) and as system B (concrete values, ordinary flushes only) under one choice record; after every segment the controller gate traces, arrays, shared memory, every host-visible handle and the connection bookkeeping (arrays / registers pending return, used M registers) must be equal; a compiled subroutine is also instantiated several times on shallow copies (each copy takes its own values, the original keeps its templates).",
    note="Trusted: system B as the reference (judged itself by C05), trace memories sharing one outcome script, generator. Template operands only in rotation numerators. NV runs use straight-line code; runs where both systems fault identically are discarded (C09's business).",
    technique="deterministic simulation: twin systems under one seeded choice record (placement of compile/commit vs flush, values, outcomes)",
    ref="§5 C06"),
  "C10": dict(
-   text="Seeded exploration on two simulated nodes (real SDK hosts + real controllers) over a state-vector universe: for every API variant (recv_keep, with_info, post routine/sequential, recv_rsp, recv_measure against the matching create call), pair counts 1-4, generic/NV hardware +- transpiler, other live qubits, expectation on/off, the scheduler draws the Bell state of every pair and the delivery order; oracle: joint state of (receiver qubit i, creator partner i) is Phi+ (or exactly the delivered state with the expectation off), other qubits untouched, post-routine outcomes correlate with the partner's collapsed state, and for measure-directly the exact (Born-weighted) distribution of post-processed outcomes equals that of Phi+ in the requested basis.",
+   text="Seeded exploration on two simulated nodes (real SDK hosts + real controllers) over a state-vector universe: for every API variant (recv_keep, with_info, post routine/sequential, recv_rsp, recv_measure -- also with the receiver stating the bases itself -- against the matching create call), pair counts 1-4, generic/NV hardware +- transpiler, other live qubits, expectation on/off, the scheduler draws the Bell state of every pair and the delivery order; oracle: joint state of (receiver qubit i, creator partner i) is Phi+ (or exactly the delivered state with the expectation off), other qubits untouched, post-routine outcomes correlate with the partner's collapsed state, and for measure-directly the exact (Born-weighted) distribution of post-processed outcomes equals that of Phi+ in the requested basis.",
    note="Trusted: state-vector universe (gate semantics written from definitions), fake link with its own Bell-state numbering (published numbering), fidelity threshold 1-1e-9. Three recorded findings are masked in half of the runs.",
    technique="deterministic simulation: two-node network with scheduler-owned Bell states, outcomes and delivery order + state-vector oracle",
    ref="§5 C10"),
  "C11": dict(
    text="Seeded exploration: 1-3 calls through every public EPRSocket entry point with drawn arguments (type, pair count, time limit/unit, rotation triples, named bases, every RandomBasis member, sockets 0-3 to three remote nodes, both roles) on a real host + controller with ghost peers; every response field is drawn independently and pairwise distinct. Request oracle: the LinkLayerCreate reaching the recording network stack equals, field by field and type by type, what the API arguments imply, and request_to_qlink_1_0 accepts it. Response oracle: every result handle (Qubit.entanglement_info, EprKeepResult, EprMeasureResult, mapped physical qubit, remote node name) reads the field of the i-th response delivered for that request.",
-   note="Trusted: expected_request() table written from the EPRSocket documentation, recording stack (purpose id = socket id), fake link. Generic hardware config.",
+   note="Trusted: expected_request() table written from the EPRSocket documentation, recording stack (purpose id = a per-run bijection of the socket id), fake link; one run in five starts with a create request the stack refuses. Generic hardware config.",
    technique="deterministic simulation: scheduler-owned response fields and delivery times + field-by-field boundary oracle",
    ref="§5 C11"),
  "C20": dict(
-   text="Seeded exploration on a single simulated node with a state-vector memory: each toolbox call (toffoli_gate, t_inverse, set_qubit_state, parity_meas over every Pauli string of length 1-3 with optional leading '-') runs through the real SDK -> bytes -> controller pipeline on injected computational-basis and random entangled input states, with scheduler-owned flush placement and every measurement branch forced in turn; final states are compared with the ideal operator (fidelity), parity_meas additionally on the returned value, the exact branch probability and the post-measurement state.",
+   text="Seeded exploration on a single simulated node with a state-vector memory: each toolbox call (toffoli_gate, t_inverse, set_qubit_state, parity_meas over every Pauli string of length 1-3 with optional leading '-', and sequences of 2-3 parity measurements flushed separately whose handles are read only at the end) runs through the real SDK -> bytes -> controller pipeline on injected computational-basis and random entangled input states, with scheduler-owned flush placement and every measurement branch forced in turn; final states are compared with the ideal operator (fidelity), parity_meas additionally on the returned value, the exact branch probability and the post-measurement state.",
    note="Trusted: state-vector universe (definitions of the vanilla gates), operator table of the oracle. Vanilla flavour only (NV decompositions belong to C08). set_qubit_state threshold 1-1e-6, others 1-1e-9.",
    technique="deterministic simulation: forced measurement branches and flush placement over a state-vector backend + ideal-operator oracle",
    ref="§5 C20"),
  "C08": dict(
-   text="Seeded twin simulation: a generated vanilla subroutine of the kind the SDK emits (gates preceded by the set of their qubit registers, inside LOOP / IF_EXIT shapes, with measurements feeding branches and arrays and optionally an exit label just past the end) is executed as is on a vanilla executor and, after NVSubroutineTranspiler, on an NV executor -- same injected input state, one shared stream of collapse draws; at the end classical memory must be identical, the allocated qubits' state equal up to global phase, and every crot_* must have the electron as control.",
+   text="Seeded twin simulation: a generated vanilla subroutine of the kind the SDK emits (gates preceded by the set of their qubit registers, inside LOOP / IF_EXIT shapes, with measurements feeding branches and arrays optionally an exit label just past the end, labels directly on gates, debug annotations, the package-wide hardware setting) -- or, in a third of the runs, the subroutines the real SDK emits for a generated host program -- is executed as is on a vanilla executor and, after NVSubroutineTranspiler, on an NV executor -- same injected input state, one shared stream of collapse draws; at the end classical memory must be identical, the allocated qubits' state equal up to global phase, and every crot_* must have the electron as control.",
    note="Trusted: state-vector universe (vanilla and NV instruction semantics written from definitions; validated against each other on CNOT/CPHASE/MOV), generator. Virtual qubit 0 stays allocated; Q registers and C15 are excluded from the classical comparison; two recorded findings are masked in half of the runs.",
    technique="deterministic simulation: vanilla/NV twin executors under one seeded stream of collapse draws + state-vector comparison",
    ref="§5 C08"),
  "C18": dict(
-   text="Seeded exploration of thread schedules: 2-3 endpoint programs (socket pairs on ids 0/1 or a 3-party broadcast channel; <=4 operations each: send / blocking-with-timeout and non-blocking receive, structured and silent variants, callback delivery, disconnect by dropping the socket at a drawn point) run in real threads that move only while holding the scheduler's baton; every source line of socket_hub.py / thread_socket/socket.py / broadcast_channel.py is a pre-emption point decided by the seeded choice stream; sleep, timer and Lock are virtual. Oracle over the recorded invoke/return history: per channel the received sequence is a duplicate-free prefix of what was sent, received + still-queued == sent (exactly once), non-blocking receives report emptiness only when nothing was certainly there, sends to a departed peer fail with ConnectionError, constructors rendezvous without timeout or deadlock.",
+   text="Seeded exploration of thread schedules: 2-3 endpoint programs (socket pairs on ids 0/1 or a 3-party broadcast channel; <=4 operations each: send / blocking-with-timeout and non-blocking receive, structured and silent variants, callback delivery, disconnect by dropping the socket at a drawn point, re-connection, non-blocking broadcast polls, an impatient first connect attempt that times out while the peer is held back) run in real threads that move only while holding the scheduler's baton; every source line of socket_hub.py / thread_socket/socket.py / broadcast_channel.py is a pre-emption point decided by the seeded choice stream; sleep, timer and Lock are virtual. Oracle over the recorded invoke/return history: per channel the received sequence is a duplicate-free prefix of what was sent, received + still-queued == sent (exactly once), non-blocking receives report emptiness only when nothing was certainly there, sends to a departed peer fail with ConnectionError, constructors rendezvous without timeout or deadlock.",
    note="Trusted: baton scheduler (one thread runs at a time; line-level pre-emption), virtual time (a sleeper may be resumed at any time, which jumps the clock), endpoint programs deadlock-free by construction. Socket keys are not reused within a run.",
    technique="deterministic simulation: real threads under a seeded baton scheduler with line-level pre-emption, virtual sleep/timer/Lock + history oracle",
    ref="§5 C18"),
